@@ -38,6 +38,10 @@ CLAIMED = {
          "Props/C08.v: C08_covering (pixel (x,y) of every returned field = stored word of the cell of the finest selected level with a box over it; grid_level = that level) for every list of well-formed 2D levels in any file layout, every limit and field list; C08_succeeds, C08_total (no uninitialised pixel), C08_expand, C08_box_read, C08_order_free. Extracted Mandoline.Plate.plate compared bit for bit with Mandoline(...).slice(fformat='return') and an independent numpy covering grid on generated 2D plotfiles.",
          "x/y coordinates (np.linspace) compared numerically, not proved; numpy slice assignment and np.repeat/reshape modelled (Array.Paint, Mandoline.Plate); field-name resolution (parse_input_fields) checked by correspondence only.",
          "DESIGN.md section 3 C08"),
+ 'C10': ("Coq proof (per-file scan complete, expand_array3d = cell replication, level-ordered painting = covering grid, independence of the completion order of the per-file tasks) + bit-for-bit correspondence of the .npy under controlled completion orders",
+         "Props/C10.v: C10_covering, C10_order_free (every two complete delivery orders of the imap_unordered results give the same grid), C10_scan_file, C10_expand3, C10_limit_patches, for every list of well-formed 3D levels in any layout. The whip entry point is run in-process under a controlled pool (identity / reverse / random / rotated completion orders), the .npy compared with the extracted model fed the same orders and with an independent covering-grid oracle, for float64 and float32 and every level limit.",
+         "dtype conversion = numpy astype applied by the harness (abstract cast); two defects repaired by fix: commits (bytes header, ignored --limit_level), see KNOWN_FINDINGS.txt; np.repeat / slice assignment modelled.",
+         "DESIGN.md section 3 C10"),
 }
 PENDING_REASON = "check not built yet in this round (model and theorems planned in DESIGN.md section 3); not claimed until its check runs"
 
